@@ -457,6 +457,33 @@ func tableReenter(r *core.Run) {
 			n++
 		}
 	}
+	// the OPERATOR position: the head of a call is itself a call that re-enters the enclosing function (directly, through
+	// a second function, under if / let / progn / cond, in and out of tail position); "expr1 is evaluated first (and must
+	// evaluate to a function)", whatever position the whole call is in.  acc is a curried accumulator: applied to a
+	// number it returns another accumulator, applied to a symbol it reports what it has seen.
+	const P = "(pick (- n 1))"
+	heads := []struct{ id, src string }{
+		{"head/tail", "(" + P + " n)"},
+		{"head/if-tail", "(if (= n 99) 'no (" + P + " n))"},
+		{"head/cond-tail", "(cond ((= n 99) 'no) (else (" + P + " n)))"},
+		{"head/progn-tail", "(progn (debug-print 'turn n) (" + P + " n))"},
+		{"head/let-tail", "(let ([m (+ n 0)]) (" + P + " m))"},
+		{"head/or-tail", "(or false (" + P + " n))"},
+		{"head/non-tail", "(car (list (" + P + " n) n))"},
+		{"head/head-is-if", "((if (> n 0) " + P + " car) n)"},
+		{"head/head-is-let", "((let ([g " + P + "]) g) n)"},
+		{"head/head-is-call-of-call", "(((lambda (g) (lambda (k) (funcall g k))) " + P + ") n)"},
+		{"head/mutual", "((pick2 (- n 1)) n)"},
+		{"head/funcall-of-head", "(funcall " + P + " n)"},
+		{"head/twice", "((" + P + " n) n)"},
+	}
+	for _, h := range heads {
+		for depth := 0; depth <= 4; depth++ {
+			src := fmt.Sprintf("(defun acc (k) (lambda (x) (if (symbol? x) (list 'seen k) (acc (+ k x)))))\n(defun pick (n) (if (= n 0) (acc 0) %s))\n(defun pick2 (n) (if (= n 0) (acc 100) ((pick (- n 1)) n)))\n(list ((pick %d) 'end) ((pick %d) 'end))", h.src, depth, depth)
+			check(r, "T-reenter", src)
+			n++
+		}
+	}
 	r.Bound("T-reenter_programs", n)
-	r.AddStates(int64(len(forms)))
+	r.AddStates(int64(len(forms) + len(heads)))
 }
